@@ -868,6 +868,12 @@ def _visited_walk_for(ctx, fn, cfg, lp, ev, c):
             if isinstance(last_assign.op, ast.Add) and t.is_const() and t.value() > 0:
                 continue
             return False, "VISITED-WALK", f"cursor step `{norm(last_assign)}` is not a positive increment"
+        try:
+            step_ = ev.ev(last_assign.value) - Term.atom(c)
+        except Exception:
+            step_ = None
+        if step_ is not None and step_.is_const() and step_.value() > 0:
+            continue  # `c = c + k` is the increment `c += k`
         vtxt = norm(last_assign.value)
         fresh = False
         for X in marked_struct:
@@ -1075,6 +1081,14 @@ def _size_term(ctx, L, node, env):
                     v = None
                 if isinstance(v, int):
                     return Term.const(v)
+            if isinstance(n.func, ast.Name) and n.func.id == "sum" and len(n.args) == 1 and not n.keywords:
+                # a sum over a literal table of static sizes
+                try:
+                    v = L.const(n, env)
+                except Unknown:
+                    v = None
+                if isinstance(v, int) and not isinstance(v, bool):
+                    return Term.const(v)
             return Evaluator._call(self_inner, n)
 
         def child(self_inner, e, this_names=None):
@@ -1230,6 +1244,27 @@ def schema_read_until_empty(ctx, fn, cfg, lp, ev):
     return True, "READ-UNTIL-EMPTY", f"only exit is `{var}` empty; relies on S5 (position advances by the clipped size) and a positive `{norm(size)}`"
 
 
+def _implies_not_none(test, c, truth):
+    """does `test` evaluating to `truth` imply that the local `c` is not None?  (structural: and/or/not over `c is
+    [not] None`, `c ==/!= None` and the bare name)"""
+    if isinstance(test, ast.UnaryOp) and isinstance(test.op, ast.Not):
+        return _implies_not_none(test.operand, c, not truth)
+    if isinstance(test, ast.BoolOp):
+        conj = isinstance(test.op, ast.And) == truth  # (A and B) true / (A or B) false: every operand has that value
+        parts = [_implies_not_none(v, c, truth) for v in test.values]
+        return any(parts) if conj else all(parts)
+    if isinstance(test, ast.Name):
+        return truth and test.id == c
+    if isinstance(test, ast.Compare) and len(test.ops) == 1 and isinstance(test.left, ast.Name) and test.left.id == c \
+            and isinstance(test.comparators[0], ast.Constant) and test.comparators[0].value is None:
+        op = test.ops[0]
+        if isinstance(op, (ast.IsNot, ast.NotEq)):
+            return truth
+        if isinstance(op, (ast.Is, ast.Eq)):
+            return not truth
+    return False
+
+
 def schema_ancestor(ctx, fn, cfg, lp, ev):
     loop = lp.stmt
     # guard mentions a cursor; every back path reassigns cursor = cursor.parent and nothing else
@@ -1243,8 +1278,7 @@ def schema_ancestor(ctx, fn, cfg, lp, ev):
         if c not in names_in(loop.test):
             continue
         # guard must exit on None
-        gtxt = norm(loop.test)
-        if f"{c} is not None" not in gtxt and f"{c} != None" not in gtxt and gtxt != c:
+        if not _implies_not_none(loop.test, c, True):
             continue
         ok = True
         for kind, path, edge in cfg.iteration_paths(lp):
